@@ -426,6 +426,7 @@ struct CaseRes {
     hash: u64,
     json_len: usize,
     sample: Option<Value>,
+    ms: u64,
 }
 
 fn sample_view(v: &Value) -> Value {
@@ -657,6 +658,7 @@ pub fn run_check<P: Property>(p: Arc<P>, tier: Tier, seed: u64) -> i32 {
                                             hash: 0,
                                             json_len: 0,
                                             sample: None,
+                                            ms: 0,
                                         });
                                         break;
                                     }
@@ -665,7 +667,9 @@ pub fn run_check<P: Property>(p: Arc<P>, tier: Tier, seed: u64) -> i32 {
                         };
                         let cj = serde_json::to_value(&case).expect("case to json");
                         let cs = serde_json::to_string(&cj).unwrap();
+                        let t_case = Instant::now();
                         let (kind, v) = classify(&*p, &mut w, &cj, false, &open_sigs, &hang_cleared);
+                        let ms = t_case.elapsed().as_millis() as u64;
                         match &kind {
                             ResKind::Fail { .. } => {
                                 shared.fail_at.fetch_min(item, Ordering::SeqCst);
@@ -688,6 +692,7 @@ pub fn run_check<P: Property>(p: Arc<P>, tier: Tier, seed: u64) -> i32 {
                             hash: hash_bytes(cs.as_bytes()),
                             json_len: cs.len(),
                             sample: if keep_sample && (i < 2 || cs.len() < 1500) { Some(cj) } else { None },
+                            ms,
                         });
                     }
                 })
@@ -810,6 +815,15 @@ pub fn run_check<P: Property>(p: Arc<P>, tier: Tier, seed: u64) -> i32 {
             }
         }
     }
+    // where the time went (wall ms per label; informational only, never a verdict)
+    let mut ms_by_label: BTreeMap<String, u64> = BTreeMap::new();
+    for r in &results {
+        for l in &r.labels {
+            if l.starts_with("family:") || l.starts_with("shape:") {
+                *ms_by_label.entry(l.clone()).or_default() += r.ms;
+            }
+        }
+    }
     if let Some((_, s)) = smallest {
         samples.push(json!({"smallest_nontrivial": sample_view(s)}));
     }
@@ -840,6 +854,7 @@ pub fn run_check<P: Property>(p: Arc<P>, tier: Tier, seed: u64) -> i32 {
     coverage.insert("regression_replays".into(), json!(regress));
     coverage.insert("hang_candidates_cleared".into(), json!(hang_cleared.load(Ordering::Relaxed)));
     coverage.insert("families".into(), json!(fam_sizes));
+    coverage.insert("wall_ms_by_label".into(), json!(ms_by_label));
     coverage.insert("exhaustive_families".into(), json!(exhaustive_fams));
     if all_exhaustive {
         coverage.insert("exhaustive".into(), json!(true));
